@@ -126,6 +126,34 @@ def run_component(ctx, res, seed, lines, post):
                 lines.append('SHP_OUT ' + shape_str(extra[k0]))
                 post.append(('out', which, info, ['mix', list(other)], k0, list(np.asarray(out[k0]).shape)))
             res.hit('broadcast-mixture')
+        # 5. equal-rank arrays that broadcast axis by axis (a size-1 axis anywhere, not only leading)
+        if nin >= 2:
+            for sh_a, sh_b in (((3, 1), (3, 4)), ((3, 1), (1, 4)), ((1, 4), (3, 4)), ((2, 1, 3), (2, 2, 3)), ((2, 2, 1), (1, 2, 3))):
+                target = tuple(max(p, q) for p, q in zip(sh_a, sh_b))
+                x = {}
+                for d, n in enumerate(names):
+                    shp = sh_a if d == 0 else (sh_b if d == 1 else target)
+                    x[n] = base[n][[rng.randrange(N) for _ in range(int(np.prod(shp)))]].reshape(shp)
+                try:
+                    out = fn(dict(x))
+                except Exception as e:  # noqa: BLE001
+                    res.failures.append({'kind': f'{which}: raised-on-broadcastable-shapes',
+                                         'input': {**info, 'shapes': [list(sh_a), list(sh_b)]}, 'observed': repr(e)[:200]})
+                    continue
+                xb = {n: np.broadcast_to(x[n], target).reshape(-1) for n in names}
+                ref = fn(dict(xb))
+                for k in full:
+                    o = np.asarray(out[k])
+                    if tuple(o.shape[:len(target)]) != target or not close(o.reshape(np.asarray(ref[k]).shape), ref[k]):
+                        res.failures.append({'kind': f'{which}: axis-by-axis-broadcast-differs-from-explicit-batch',
+                                             'input': {**info, 'shapes': [list(sh_a), list(sh_b)], 'output': k},
+                                             'observed_shape': list(o.shape), 'expected_leading_shape': list(target)})
+                lines.append('shp.loop ' + ' | '.join(shape_str(sh_a if d == 0 else (sh_b if d == 1 else target))
+                                                        for d in range(nin))); post.append(('loop',))
+                k0 = next(iter(full))
+                lines.append('SHP_OUT ' + shape_str(extra[k0]))
+                post.append(('out', which, info, ['bcast', list(sh_a), list(sh_b)], k0, list(np.asarray(out[k0]).shape)))
+            res.hit('equal-rank-broadcast')
     res.case(('comp', seed), True, {'component_seed': seed, 'inputs': nin, 'shapes': [list(s) for s in SHAPES]})
 
 
@@ -177,6 +205,40 @@ def run_system(ctx, res, seed, loop: bool):
     res.case(('sys', seed, loop), True, {'system_seed': seed, 'feedback_loop': loop})
 
 
+def run_nan_chain(ctx, res, seed):
+    """a sample that is NaN upstream must not change the other samples of the batch"""
+    rng = random.Random(seed)
+
+    def m1(inputs):
+        with np.errstate(all='ignore'):
+            return {'y1': np.log(np.atleast_1d(inputs['x']).astype(float)) + inputs['w']}
+
+    def m2(inputs):
+        return {'y2': np.atleast_1d(inputs['y1']) ** 2 + 1.0, 'z2': np.atleast_1d(inputs['y1']) * inputs['w']}
+
+    def m3(inputs):
+        return {'y3': np.atleast_1d(inputs['y2']) - np.atleast_1d(inputs['z2'])}
+    x, w = Variable('x', domain=(-1.0, 2.0)), Variable('w', domain=(0.0, 1.0))
+    comps = [Component(m1, inputs=[x, w], outputs=[Variable('y1')], name='m1', vectorized=True),
+             Component(m2, inputs=[Variable('y1'), w], outputs=[Variable('y2'), Variable('z2')], name='m2', vectorized=True),
+             Component(m3, inputs=[Variable('y2'), Variable('z2')], outputs=[Variable('y3')], name='m3', vectorized=True)]
+    system = System(*comps, name='nanchain')
+    N = 6
+    for bad_pos in (0, 2, N - 1):
+        xs = np.array([rng.uniform(0.2, 2.0) for _ in range(N)]); xs[bad_pos] = -0.5   # log(-0.5) = NaN
+        ws = np.array([rng.random() for _ in range(N)])
+        full = system.predict({'x': xs, 'w': ws}, normalized_inputs=False)
+        for i in range(N):
+            one = system.predict({'x': xs[i:i + 1], 'w': ws[i:i + 1]}, normalized_inputs=False)
+            for k in full:
+                if not close(np.asarray(one[k]).reshape(-1), np.asarray(full[k]).reshape(N, -1)[i]):
+                    res.failures.append({'kind': 'system: sample-alone-differs-from-sample-in-batch (batch contains a NaN sample)',
+                                         'input': {'seed': seed, 'nan_position': bad_pos, 'sample': i, 'output': k},
+                                         'observed': np.asarray(one[k]).tolist(), 'expected': np.asarray(full[k])[i].tolist()})
+    res.hit('system-batch-with-nan-sample')
+    res.case(('nanchain', seed), True, {'nan_chain_seed': seed})
+
+
 def run(ctx: core.Ctx, only=None) -> core.Result:
     res = core.Result()
     res.rule = ('components (1-3 inputs, 2 outputs, serial/vectorised models, random histories, samples on and off grid '
@@ -186,11 +248,13 @@ def run(ctx: core.Ctx, only=None) -> core.Result:
     lines, post = [], []
     items = [o.get('input', o) for o in only] if only is not None else core.corpus_cases('C10') + \
         [{'seed': ctx.rng.randrange(10 ** 6), 'what': 'comp'} for _ in range(ctx.scale(4, 40))] + \
-        [{'seed': ctx.rng.randrange(10 ** 6), 'what': w} for w in (['ff', 'loop', 'loop'] * ctx.scale(1, 6))]
+        [{'seed': ctx.rng.randrange(10 ** 6), 'what': w} for w in (['ff', 'loop', 'loop', 'nanchain'] * ctx.scale(1, 6))]
     for it in items:
         with core.guarded(res, 'scenario-raised', it):
             if it.get('what', 'comp') == 'comp':
                 run_component(ctx, res, it['seed'], lines, post)
+            elif it['what'] == 'nanchain':
+                run_nan_chain(ctx, res, it['seed'])
             else:
                 run_system(ctx, res, it['seed'], it['what'] == 'loop')
     # shape model: loop shape first, then the output shape for that loop shape
